@@ -60,6 +60,7 @@ class C20(Prop):
             case = gen_cp_case(rng, tier)
             case["n_ranks_forced"] = 1
             case["kind"] = "overlay"
+            case["rerun"] = rng.random() < 0.4
             if rng.random() < 0.4:
                 # events whose "args" object is empty (nothing but the mandatory fields): still events the overlay has to mark
                 for rk in case["ranks"]:
@@ -133,10 +134,19 @@ class C20(Prop):
                 if res is None or not res[1]:
                     return {"skip": True}
                 cp = res[0]
+                if case.get("rerun"):
+                    # what-if on the same graph object before the overlay: some weights set to 0, the path recomputed (the overlay must mark the
+                    # events of the path the graph reports NOW)
+                    rr = random.Random(case["iseed"] + 5)
+                    for a_, b_ in list(cp.edges):
+                        if rr.random() < 0.3:
+                            cp.edges[a_, b_]["weight"] = 0
+                    if not cp.critical_path():
+                        return {"skip": True}
                 # identity of the critical events: what the analysed frame says the event with that id is (its decoded name)
                 st = ta.t.symbol_table.get_sym_table()
                 names = cp.trace_df["name"]
-                obs["critRows"] = [{"id": int(i), "name": st[int(names.loc[i])]} for i in sorted(cp.critical_path_events_set)]
+                obs["critRows"] = [{"id": int(i), "name": st[int(names.loc[i])]} for i in sorted({int(cp.node_list[n].ev_idx) for n in cp.critical_path_nodes})]
                 for only in (False, True):
                     for alle in (False, True):
                         outdir = os.path.join(d, f"ov_{int(only)}{int(alle)}")
@@ -162,7 +172,9 @@ class C20(Prop):
                             edges.append({"pu": _pt(src[a].get("pid")), "tu": _pt(src[a].get("tid")), "pv": _pt(src[b].get("pid")), "tv": _pt(src[b].get("tid"))})
                         obs["ov"].append({"only": only, "all": alle, "out": out,
                                           "flows": [{"id": int(f["id"]), "ph": f["ph"], "pid": _pt(f.get("pid")), "tid": _pt(f.get("tid"))} for f in flows],
-                                          "edges": edges, "critical": sorted(int(x) for x in cp.critical_path_events_set)})
+                                          "edges": edges,
+                                          # the critical path's events, read off the path itself (C09 binds the reported set to it)
+                                          "critical": sorted({int(cp.node_list[n].ev_idx) for n in cp.critical_path_nodes})})
             except Exception as ex:
                 obs["err"] = hta.exc_str(ex)
         return obs
